@@ -376,7 +376,7 @@ func bCfgs() []Cfg {
 }
 
 type bOp struct {
-	Kind  string `json:"op"` // ask | rej | ans | adv | jan
+	Kind  string `json:"op"` // ask | put | rej | ans | adv | jan
 	Name  string `json:"name,omitempty"`
 	Qtype uint16 `json:"qtype,omitempty"`
 	Scope string `json:"scope,omitempty"`
@@ -417,6 +417,8 @@ func (o bOp) String() string {
 		return fmt.Sprintf("ask(%s,%s,%s)", o.Name, qt(o.Qtype), o.Scope)
 	case "ask!":
 		return fmt.Sprintf("ask_without_settling(%s,%s,%s)", o.Name, qt(o.Qtype), o.Scope)
+	case "put":
+		return fmt.Sprintf("upstream_reply_stored(%s,%s,%s)", o.Name, qt(o.Qtype), o.Scope)
 	case "rej":
 		return fmt.Sprintf("reject(%s,%s)", o.Name, qt(o.Qtype))
 	case "ans":
@@ -440,10 +442,12 @@ func bHist(h []bOp) string {
 }
 
 type bLayer struct {
-	Name   string
-	Ops    []bOp
-	DepthQ int
-	DepthT int
+	Name    string
+	Ops     []bOp
+	Prefix  []bOp // every history of the layer starts with these operations (depth counts the operations after them)
+	OnlyOpt bool  // layer applies only to configurations with optimistic caching on
+	DepthQ  int
+	DepthT  int
 }
 
 func bLayers() []bLayer {
@@ -463,11 +467,20 @@ func bLayers() []bLayer {
 	}
 	wide.Ops = append(wide.Ops, bOp{Kind: "rej", Name: "a.", Qtype: 1}, bOp{Kind: "rej", Name: "b.", Qtype: 1},
 		adv(latency), adv(2*time.Second), adv(21*time.Second), adv(61*time.Second), adv(85*time.Second), bOp{Kind: "jan"})
-	narrow := bLayer{Name: "narrow", DepthQ: 4, DepthT: 6, Ops: []bOp{
-		ask("a.", 1, "u1"), ask("b.", 1, "u1"), ask("a.", 1, "u2"),
-		{Kind: "ans", Ans: 0}, {Kind: "ans", Ans: 1}, {Kind: "ans", Ans: 2},
+	put := func(n string, t uint16, s string) bOp { return bOp{Kind: "put", Name: n, Qtype: t, Scope: s} }
+	wide.Ops = append(wide.Ops, put("a.", 1, "u1"), put("a.", 1, "u2"), put("b.", 1, "u1"))
+	narrow := bLayer{Name: "narrow", DepthQ: 4, DepthT: 5, Ops: []bOp{
+		ask("a.", 1, "u1"), ask("b.", 1, "u1"), ask("a.", 1, "u2"), put("a.", 1, "u1"), put("b.", 1, "u1"),
+		{Kind: "ans", Ans: 0}, {Kind: "ans", Ans: 1}, {Kind: "ans", Ans: 2}, {Kind: "ans", Ans: 3}, {Kind: "ans", Ans: 4},
 		{Kind: "rej", Name: "a.", Qtype: 1}, adv(latency), adv(21 * time.Second), adv(61 * time.Second), {Kind: "jan"}}}
-	return []bLayer{narrow, wide}
+	// refresh: two names sharing address x are cached and have expired (stale window open); then every continuation: the
+	// upstream's address set changes, a client asks (stale answer + background refresh that REPLACES the live entry), ...
+	refresh := bLayer{Name: "refresh", OnlyOpt: true, DepthQ: 3, DepthT: 4,
+		Prefix: []bOp{ask("a.", 1, "u1"), ask("b.", 1, "u1"), adv(21 * time.Second)},
+		Ops: []bOp{ask("a.", 1, "u1"), ask("b.", 1, "u1"),
+			{Kind: "ans", Ans: 0}, {Kind: "ans", Ans: 1}, {Kind: "ans", Ans: 2}, {Kind: "ans", Ans: 3}, {Kind: "ans", Ans: 4},
+			{Kind: "rej", Name: "a.", Qtype: 1}, adv(latency), adv(61 * time.Second), {Kind: "jan"}}}
+	return []bLayer{refresh, narrow, wide}
 }
 
 var matcher *control.VerifRouting
@@ -516,6 +529,12 @@ func bRun(cfg Cfg, h []bOp, trace bool) (out bOut) {
 				rep := ctl.Ask(op.Scope, op.Name, op.Qtype, dst, uint16(0x200+i))
 				if rep.Err != "" || rep.Replies != 1 {
 					panic(fmt.Sprintf("harness: question not answered: %+v", rep))
+				}
+			case "put":
+				// an upstream reply for this question arrives and is stored (NormalizeAndCacheDnsResp_, what dialSend and
+				// the background refresh call) whatever the cache holds for the key: replace / refresh with other addresses
+				if err := ctl.InsertRaw(op.Scope, op.Name, op.Qtype, dst, ansAddrs(ans, op.Qtype), ttl); err != nil {
+					panic("harness: InsertRaw: " + err.Error())
 				}
 			case "ask!": // replay files only: a question after which background workers are NOT given time to settle
 				ctl.Ask(op.Scope, op.Name, op.Qtype, dst, uint16(0x200+i))
@@ -623,8 +642,11 @@ func bBfs(cfg Cfg, thorough bool, deadline time.Time) *workerOut {
 		if thorough {
 			depth = l.DepthT
 		}
+		if l.OnlyOpt && !cfg.Opt {
+			continue
+		}
 		seen := map[string]bool{}
-		frontier := [][]bOp{nil}
+		frontier := [][]bOp{l.Prefix}
 		for d := 1; d <= depth; d++ {
 			ls := levelStat{Layer: l.Name, Depth: d, Complete: true}
 			var next [][]bOp
@@ -686,13 +708,197 @@ func bBfs(cfg Cfg, thorough bool, deadline time.Time) *workerOut {
 	return wo
 }
 
+// =====================================================================================================================
+// layer (s): two cache callbacks on different owners at the same time (engine S, schedule exploration)
+// =====================================================================================================================
+//
+// Several names / types / scopes resolving to one address are answered on different goroutines, so two syncOwner
+// calls for different owners can overlap. control/domain_routing_tracker.go is rewritten onto the scheduler's
+// mutex; every interleaving of the two calls within the preemption bound is executed on the real tracker; the batch
+// observer plays the kernel map; at quiescence the mirror invariant must hold.
+
+type sSpec struct {
+	Pre  []aOp
+	A, B aOp
+}
+
+func (sp sSpec) name() string {
+	return fmt.Sprintf("pre=%s | %s || %s", aHist(sp.Pre), sp.A, sp.B)
+}
+
+func sSpecs() []sSpec {
+	x, y := 1, 2
+	pres := [][]aOp{
+		nil,
+		{{Owner: 0, Bm: 1, Set: x}},
+		{{Owner: 0, Bm: 1, Set: x}, {Owner: 1, Bm: 2, Set: x}},
+		{{Owner: 2, Bm: 1, Set: x}},
+		{{Owner: 0, Bm: 1, Set: x | y}, {Owner: 1, Bm: 2, Set: y}},
+	}
+	as := []aOp{{Owner: 0, Bm: 1, Set: x}, {Owner: 0, Bm: 1, Set: x | y}, {Owner: 0, Bm: 1, Set: y}, {Owner: 0, Remove: true}}
+	bs := []aOp{{Owner: 1, Bm: 2, Set: x}, {Owner: 1, Bm: 2, Set: x | y}, {Owner: 1, Remove: true}}
+	var out []sSpec
+	for _, p := range pres {
+		for _, a := range as {
+			for _, b := range bs {
+				out = append(out, sSpec{Pre: p, A: a, B: b})
+			}
+		}
+	}
+	return out
+}
+
+type sObs struct {
+	table map[netip.Addr][32]uint32
+	live  []liveEntry
+	done  int
+	errs  []string
+}
+
+var sCur *sObs
+
+func sScenario(sp sSpec) *vsched.Scenario {
+	type own struct {
+		bm    bitmap
+		addrs []netip.Addr
+	}
+	body := func() {
+		o := &sObs{}
+		sCur = o
+		env := control.VerifNewTrackerEnv()
+		live := map[int]own{}
+		do := func(op aOp, prev own) {
+			var err error
+			if op.Remove {
+				err = env.Remove(fmt.Sprintf("o%d", op.Owner+1), prev.bm, prev.addrs)
+			} else {
+				err = env.Sync(fmt.Sprintf("o%d", op.Owner+1), aBitmaps[op.Bm], aAddrs(op.Set))
+			}
+			if err != nil {
+				o.errs = append(o.errs, err.Error())
+			}
+		}
+		upd := func(op aOp) {
+			if op.Remove {
+				delete(live, op.Owner)
+			} else {
+				live[op.Owner] = own{aBitmaps[op.Bm], aAddrs(op.Set)}
+			}
+		}
+		for _, op := range sp.Pre {
+			do(op, live[op.Owner])
+			upd(op)
+		}
+		for i, op := range []aOp{sp.A, sp.B} {
+			op, prev := op, live[op.Owner]
+			vsched.GoNamed(fmt.Sprintf("callback%d", i), func() {
+				do(op, prev)
+				o.done++
+			})
+		}
+		vsched.WaitUntil(func() bool { return o.done == 2 })
+		upd(sp.A)
+		upd(sp.B) // different owners: the two operations commute in the reference
+		for ow := 0; ow < 3; ow++ {
+			if e, ok := live[ow]; ok {
+				o.live = append(o.live, liveEntry{Name: fmt.Sprintf("o%d", ow+1), Addrs: e.addrs, Bitmap: e.bm})
+			}
+		}
+		o.table = map[netip.Addr][32]uint32{}
+		for k, v := range env.Table.M {
+			o.table[k] = v
+		}
+	}
+	check := func(r *vsched.Result) (string, any) {
+		o := sCur
+		if r.Status == vsched.StPanic {
+			return "panic in a managed thread: " + firstLine(r.PanicMsg), r.PanicMsg
+		}
+		if r.Status == vsched.StHorizon {
+			return "", nil
+		}
+		if o.done != 2 {
+			return "deadlock: callbacks blocked: " + strings.Join(r.Blocked, "; "), nil
+		}
+		if len(o.errs) > 0 {
+			return "callback returned an error: " + o.errs[0], nil
+		}
+		if v := compareTable(o.table, o.live); v != "" {
+			return "after two concurrent callbacks settled: " + v, nil
+		}
+		return "", nil
+	}
+	outcome := func(r *vsched.Result) string {
+		o := sCur
+		t := &control.VerifKernelTable{M: o.table}
+		return t.String()
+	}
+	return &vsched.Scenario{Name: sp.name(), Body: body, Check: check, Outcome: outcome, MaxSteps: 1 << 14, HorizonNs: int64(time.Minute)}
+}
+
+type sOut struct {
+	Scenarios  int            `json:"scenarios"`
+	Executions int64          `json:"executions"`
+	Decisions  int64          `json:"decisions"`
+	Outcomes   int            `json:"distinct_outcomes"`
+	MaxDepth   int            `json:"max_depth"`
+	Exhaustive bool           `json:"exhaustive"`
+	Bounds     []vsched.Bound `json:"bounds"`
+	Viols      []violOut      `json:"violations"`
+	Sample     string         `json:"sample"`
+}
+
+func layerS(thorough bool, deadline time.Time) *sOut {
+	out := &sOut{Exhaustive: true, Bounds: []vsched.Bound{{0, 0}, {1, 0}, {2, 0}}}
+	if thorough {
+		out.Bounds = append(out.Bounds, vsched.Bound{3, 0})
+	}
+	for _, sp := range sSpecs() {
+		sc := sScenario(sp)
+		e := &vsched.Explorer{Sc: sc, Bounds: out.Bounds, Deadline: deadline}
+		st := e.Explore()
+		out.Scenarios++
+		out.Executions += st.Executions
+		out.Decisions += st.Steps
+		out.Outcomes += len(st.OutcomeHashes)
+		if st.MaxDepth > out.MaxDepth {
+			out.MaxDepth = st.MaxDepth
+		}
+		if !st.Exhaustive {
+			out.Exhaustive = false
+		}
+		if out.Sample == "" {
+			out.Sample = sc.Name
+		}
+		for k := range st.Violations {
+			v := st.Violations[k]
+			if !e.Confirm(&v, 5) {
+				fmt.Fprintf(os.Stderr, "C10: schedule exploration: schedule did not reproduce: %s\n", v.Sig)
+				os.Exit(2)
+			}
+			if len(out.Viols) < 4 {
+				out.Viols = append(out.Viols, violOut{Sig: fmt.Sprintf("layer=schedule scenario{%s} bound=%v: %s", sc.Name, v.Bound, v.Sig),
+					Detail: map[string]any{"layer": "schedule", "scenario": sc.Name, "schedule": v.Schedule, "bound": v.Bound, "trace": v.Trace}})
+			}
+		}
+	}
+	return out
+}
+
 var (
 	fWorker   = flag.Int("c10worker", -1, "internal: configuration index of layer (b)")
 	fDeadline = flag.Int64("c10deadline", 0, "internal: unix deadline")
+	fSched    = flag.Bool("c10sched", false, "internal: run the schedule-exploration layer")
 )
 
 func main() {
 	flag.Parse()
+	if *fSched {
+		so := layerS(flag.Lookup("tier").Value.String() == "thorough", time.Unix(*fDeadline, 0))
+		b, _ := json.Marshal(so)
+		os.Stdout.Write(b)
+		os.Exit(0)
+	}
 	if *fWorker >= 0 {
 		prepare()
 		wo := bBfs(bCfgs()[*fWorker], flag.Lookup("tier").Value.String() == "thorough", time.Unix(*fDeadline, 0))
@@ -730,6 +936,26 @@ func main() {
 			outs[i] = &wo
 		}(i)
 	}
+	var sres *sOut
+	var serr string
+	wg.Add(1)
+	go func() {
+		defer wg.Done()
+		cmd := exec.Command(os.Args[0], "-tier", r.Tier(), "-c10sched", "-c10deadline", fmt.Sprint(deadline.Unix()))
+		cmd.Env = append(os.Environ(), "GOMAXPROCS=1")
+		var so, se bytes.Buffer
+		cmd.Stdout, cmd.Stderr = &so, &se
+		if err := cmd.Run(); err != nil {
+			serr = fmt.Sprintf("schedule layer: %v: %s", err, tailStr(se.String(), 1500))
+			return
+		}
+		var x sOut
+		if err := json.Unmarshal(so.Bytes(), &x); err != nil {
+			serr = fmt.Sprintf("schedule layer: bad output: %v", err)
+			return
+		}
+		sres = &x
+	}()
 	// layer (a) runs in this process meanwhile
 	depthA := 6 // explored until no new state appears (finite state space) or this depth
 	if r.Thorough() {
@@ -768,6 +994,22 @@ func main() {
 		}
 		perCfg = append(perCfg, map[string]any{"config": wo.Cfg.String(), "levels": wo.Levels, "states": wo.States, "executions": wo.Execs, "bitmaps_seen": wo.Bitmaps})
 	}
+	if sres == nil {
+		fmt.Fprintln(os.Stderr, "C10:", serr)
+		broken = true
+	} else {
+		for _, v := range sres.Viols {
+			r.Violation(v.Sig, v.Detail)
+		}
+		if !sres.Exhaustive {
+			r.CapHit("time budget reached in the schedule layer")
+		}
+		execs += sres.Executions
+		r.Set("schedule_layer", map[string]any{"scenarios": sres.Scenarios, "executions": sres.Executions, "decisions": sres.Decisions, "distinct_outcomes": sres.Outcomes, "max_depth": sres.MaxDepth, "bounds": sres.Bounds, "exhaustive_within_bounds": sres.Exhaustive})
+		r.Set("schedule_executions", sres.Executions)
+		r.Set("schedule_distinct_outcomes", sres.Outcomes)
+		r.Sample(map[string]any{"layer": "schedule", "scenario": sres.Sample})
+	}
 	if broken {
 		fmt.Fprintln(os.Stderr, "C10: check broken: no verdict")
 		os.Exit(2)
@@ -788,7 +1030,8 @@ func main() {
 	r.Assume("the kernel table is the in-order fold of the (update keys, values, delete keys) batches syncOwner issues (update batch first, then delete batch), observed by one statement inserted in front of the map write; BpfMapBatchUpdate/Delete themselves are not exercised (nil map)")
 	r.Assume("unspecified addresses (0.0.0.0, ::) are 'no address': a live entry listing one does not entitle the table to an entry for it")
 	r.Assume("layer (b): 'live cache entries' are the entries the cache store holds after background workers settled (expired entries not yet swept still count); their bitmaps are the ones the production NewCache closure computed from the real domain matcher (checked to differ between the two rule-matched names and to be zero for the unmatched name)")
-	r.Assume("schedules: the bpf-update worker, evictor and refresh goroutines run to quiescence after every operation (default schedule); interleavings inside one operation are not explored")
+	r.Assume("schedule layer: scheduling points at the mutex operations of domain_routing_tracker.go (source-rewritten); two concurrent callbacks for different owners, every schedule within the preemption bound, sequential consistency")
+	r.Assume("schedules: the bpf-update worker, evictor and refresh goroutines run to quiescence after every operation (default schedule); interleavings inside one controller operation are not explored (the schedule layer covers two overlapping tracker callbacks)")
 	r.Finish()
 }
 
